@@ -63,6 +63,12 @@ pub fn rules() -> Vec<Value> {
         json!({"var": 0}), json!({"var": [7, "none"]}), json!({"var": -1}), json!({"var": "a.1"}), json!({"var": ["a.9", {"var": "a.0"}]}),
         json!({"missing": [9, 0, "a.2", "a.-9"]}), json!({"all": [{"var": "a"}, {"!==": [{"var": ""}, "x"]}]}), json!({"substr": [{"var": "a"}, -2]}),
         json!({"cat": [{"var": "a.0"}, {"var": "a.-1"}, {"var": 1}]}), json!({"in": [{"var": "a.1"}, {"var": "a"}]}),
+        // error and early-return paths of every family (a residue left behind on the way out)
+        json!({"substr": [{"var": "xs"}, 1]}), json!({"in": [{"var": "n"}, {"var": "a"}]}), json!({"map": [{"var": "a"}, {"var": ""}]}),
+        json!({"filter": [{"var": "xs"}, {"+": [{"var": ""}, "x"]}]}), json!({"reduce": [{"var": "xs"}, {"/": [{"var": "accumulator"}, 0]}, 1]}),
+        json!({"missing_some": [{"var": "a"}, ["a", "b"]]}), json!({"missing": [["a", true, "b"]]}), json!({"var": [{"var": "xs"}]}),
+        json!({"all": [{"var": "n"}, true]}), json!({"cat": [{"var": "a"}, {"max": [{"var": "a"}, "x"]}]}), json!({"merge": [{"var": "xs"}, {"-": ["a", 1]}]}),
+        json!({"some": [{"var": "xs"}, {"==": []}]}), json!({"and": [{"var": "a"}, {"substr": [1]}]}),
     ]
 }
 
